@@ -294,6 +294,17 @@ func checkC19(c *Ctx) {
 				}
 			}
 		}
+		// the statement shown is the one a real run of the same chain builds: the session keeps the
+		// receiver's statement (no NewDB) and its settings
+		keeps := true
+		for _, lit := range lits {
+			if v := compositeField(lit, "NewDB"); v != nil {
+				if b, ok := constBool(info, v); !ok || b {
+					keeps = false
+				}
+			}
+		}
+		rt.Check(keeps, toSQL.Name(), "Session keeps the chain", toSQL.Body.Pos(), "no NewDB", "ToSQL's session starts from a new statement (NewDB): conditions, model, table, order and Unscoped already chained on the receiver are missing from the SQL it shows, while a real run of the same chain sends them")
 		rt.Check(okDry, toSQL.Name(), "Session.DryRun", toSQL.Body.Pos(), "DryRun: true", "ToSQL's session does not set DryRun: true")
 		rt.Check(okSkip, toSQL.Name(), "Session.SkipDefaultTransaction", toSQL.Body.Pos(), "SkipDefaultTransaction: true", "ToSQL's session does not set SkipDefaultTransaction: true (a write would open a transaction)")
 		// the user function must be applied to that session
